@@ -5,11 +5,12 @@ import vlib
 
 STEPS = ['before_ready', 'after_ready', 'req', 'reply', 'midreply']
 PROC_FAULTS = ['exit0', 'exit1', 'kill9', 'close_stdin', 'close_stdout', 'close_both', 'hang_exit']
-MSG_FAULTS = ['truncated', 'oversized', 'wrong_type', 'garbage', 'bad_version', 'str_wrap', 'arr_huge', 'deep_nest', 'err_long']
+MSG_FAULTS = ['truncated', 'oversized', 'wrong_type', 'garbage', 'bad_version', 'str_wrap', 'arr_huge', 'deep_nest', 'err_long', 'err_20k', 'err_300k']
 FAULTS = PROC_FAULTS + MSG_FAULTS
 # the eleven kinds the property names: exit(0), exit(1), SIGKILL, close stdin, close stdout, (close both), short header/payload
 # (truncated), wrong version, wrong type, payload length > max (oversized), undecodable value (str_wrap, arr_huge, deep_nest), garbage,
-# hang then exit; err_long = over-long error text
+# hang then exit; err_long / err_20k / err_300k = protocol-legal error texts of 1000 / 20000 / 300000 bytes (beyond the client's
+# message buffer, its 8 KiB request buffer and the pipe buffer)
 
 
 def run_model(ref, lines, timeout=600):
